@@ -55,7 +55,7 @@ func inWorld(rt *rapid.T, opt hlsim.Options, body func(rt *rapid.T, w *hlsim.Wor
 	rapid.SyncTest(rt, func(rt *rapid.T) {
 		// the operator may have spelled the file root in any equivalent way (trailing slash, /./, //, a detour through ..)
 		if opt.RootSpelling == 0 {
-			opt.RootSpelling = rapid.SampledFrom([]int{0, 0, 0, 0, 1, 2, 3, 4}).Draw(rt, "rootSpelling")
+			opt.RootSpelling = rapid.SampledFrom([]int{0, 0, 0, 0, 1, 2, 3, 4}).Draw(rt, "rootSpelling") // (5, a symbolic link, only where the oracles resolve links: TestC07LinkedRoot)
 		}
 		// ... and may have configured a banner (the shipped configuration does): 1.5 clients are then told about it when
 		// they agree
